@@ -18,6 +18,7 @@ U11 = ("u11_text_safety", {})
 U13 = ("u13_mapper_builder", {})
 U14 = ("u14_writer_builder", {})
 U15 = ("u15_classifiers", {})
+U16 = ("u16_print_parse", {})
 U12M = ("u12_text_trace", {"which": "mapper"})
 U12C = ("u12_text_trace", {"which": "cache"})
 U3 = ("u3_interpretation", {})
@@ -203,6 +204,23 @@ PROPS = {
         "bounded": ["kani::k9_parse_error_kinds_le96: buffer length <= 96 bytes; NOT counted as proved for longer buffers"],
         "design_ref": "DESIGN.md 5/C11",
     },
+    "C17": {
+        "title": "Printing a stack trace and parsing it back is lossless",
+        "units": [U16, U15],
+        "kani": [],
+        "technique": "Verus contracts on the real Display::fmt bodies of StackFrame and Throwable (what is printed) and on parse_frame / parse_throwable (exact reference parsers, unit u15), plus pure round-trip lemmas between the two",
+        "level_text": "Single frames and throwables only. Proof that StackFrame's Display appends `at ` class `.` method `(` file `:` decimal line `)` and Throwable's Display appends "
+                      "class [`: ` message]; that parse_frame / parse_throwable are exactly the reference parsers frame_spec / first-`: `-split on the trimmed line; and, as pure lemmas "
+                      "for ALL byte strings c, m, f and numbers n, that frame_spec(frame_text(c, m, f, n)) == Some((c, m, f, n)) when class.method has no `(`, method no `.`, file no `:`, "
+                      "and that the class / message of throwable_text(c, msg) are (c, msg) when the class has no space. Whole traces (Display of StackTrace, parse_stacktrace) are NOT decided.",
+        "assumed": ["write! appends the literal pieces and the renderings of its arguments in order; `{}` of a &str appends the string, of a usize its decimal digits dec(n), and parse(dec(n)) == n",
+                    "str::trim is the identity on text without outer white space (needed to compose print and parse; stated as a hypothesis, not proved)",
+                    "`{}` of a nested value appends exactly what its Display::fmt appends (links the fmt bodies to display_of in units u12 / u16)",
+                    "the str API contracts of contracts/text_model.rs (split_once / rsplit_once as first / last occurrence, starts_with, ends_with, slicing)",
+                    "multi-line traces: StackTrace::fmt and parse_stacktrace (a `&mut` walk over boxed causes) are outside the verifier's reach"],
+        "not_decided": ["stack traces with frames and cause chains (only single frames and throwables are decided)", "print(parse(print(x))) == print(x) follows from parse(print(x)) == x and is not stated separately"],
+        "design_ref": "DESIGN.md 5/C17",
+    },
     "C19": {
         "title": "File-level metadata answers equal a fold over the complete record stream",
         "units": [U7, U5],
@@ -242,7 +260,6 @@ PROPS = {
 NOT_APPLICABLE = {
     "C14": "quantifies over processes, hash seeds and threads; determinism would only follow from a functional contract on ProguardCache::write whose collection loop (HashMap/HashSet/BTreeMap entry API) is out of reach of both verifiers",
     "C16": "descriptor tokenizer/renderers are char_indices/rsplit_once/format! code rejected by the Verus front end; Kani does not finish on 6 symbolic bytes (measured)",
-    "C17": "Display impls and str-pattern parsers only (same reach limits as C07)",
     "C18": "two lines behind lazy_static! and the optional uuid dependency (SHA-1 inside the dependency); feature is off in the pinned build; a contract would restate the call",
     "C20": "schedules are outside both tools (Kani has no threads; Verus would need its own permission types on code that has no synchronisation); Send+Sync is a type-checker fact",
 }
